@@ -178,6 +178,27 @@ def run(ctx):
         res = MPI.run(n, equil_job, policy="random", seed=1, args=([7, 4, 6, 12], nprocs, None, out))
         events.append({"k": "equil", "ok": bool(res.ok), "zero": bool(res.ok and all(v <= 1e-13 for v in out)), "err": res.describe()})
         meta.append({"what": "perturbed density of the equilibrium", "nprocs": nprocs, "max_abs": out})
+    # the driver integrates along v: the DensityFinder it builds sits on the v spline of the distribution function (extent vMin..vMax,
+    # as many basis functions as v points) - on a grid whose four extents all differ
+    import os
+    import shutil
+    import tempfile
+    from harness import scenarios
+    from harness.checks.c05 import drv as drv05
+    wk = tempfile.mkdtemp(prefix="c16d_")
+    try:
+        npts_d = [6, 8, 9, 7]
+        cfd = scenarios.write_constants(os.path.join(wk, "c.json"), npts=npts_d, eps=0.05)
+        od = drv05({"work": os.path.join(wk, "w"), "cfile": cfd, "S": 5, "nprocs": [1, 1], "tEnd": 0, "folder": "F", "policy": "asc", "seed": 0, "eager": False})
+        vmax = float(scenarios.CONSTANTS["vMax"])
+        good = bool(od["ok"] and od.get("density_splines")) and all(
+            abs(lo + vmax) < 1e-12 and abs(hi - vmax) < 1e-12 and nb == npts_d[3] and not per for lo, hi, nb, per, _ in od["density_splines"])
+        ctx.count(("driver-density-finder-on-v-spline",))
+        if not good:
+            ctx.violation({"kind": "driver-density-finder", "perturbed": True}, "the driver builds its DensityFinder on spline(s) %s; the v spline spans [%g, %g] with %d basis functions (%s)" % (
+                od.get("density_splines"), -vmax, vmax, npts_d[3], od["fault"][:200]), {"npts": npts_d})
+    finally:
+        shutil.rmtree(wk, ignore_errors=True)
     rej, _ = ctx.validate_trace("C16Trace", events, what="densities recorded from the real kernels / DensityFinder (%d)" % len(events))
     for j, (e, m) in enumerate(zip(events, meta), 1):
         triv = e["k"] == "rho" and not any(e["c"])
